@@ -91,15 +91,21 @@ func (s *c06Seeds) accept(kind, x string) (bool, *Obs) {
 		if a {
 			return true, o
 		}
-		o = w.Introspect(x, "access_token", "", w.AuthFor("I"), "")
-		a, _ = o.JSON["active"].(bool)
-		return a, o
-	case "rt":
-		o := w.Introspect(x, "refresh_token", "", w.AuthFor("I"), "")
-		if a, _ := o.JSON["active"].(bool); a {
-			return true, o
+		for _, hint := range []string{"access_token", "refresh_token"} {
+			o = w.Introspect(x, hint, "", w.AuthFor("I"), "")
+			if a, _ = o.JSON["active"].(bool); a {
+				return true, o
+			}
 		}
-		o = w.Token(url.Values{"grant_type": {"refresh_token"}, "refresh_token": {x}}, w.AuthFor("A"))
+		return false, o
+	case "rt":
+		for _, hint := range []string{"refresh_token", "access_token", ""} {
+			o := w.Introspect(x, hint, "", w.AuthFor("I"), "")
+			if a, _ := o.JSON["active"].(bool); a {
+				return true, o
+			}
+		}
+		o := w.Token(url.Values{"grant_type": {"refresh_token"}, "refresh_token": {x}}, w.AuthFor("A"))
 		return issued(o), o
 	case "code":
 		o := w.Token(url.Values{"grant_type": {"authorization_code"}, "code": {x}, "redirect_uri": {"https://A.example/cb"}}, w.AuthFor("A"))
@@ -399,6 +405,30 @@ func c06JWT(c c06Case, res *WRes) {
 		return
 	}
 	res.note("sanity:genuine-accepted:jwt")
+	// freshly minted JWT access tokens never repeat, also within one second and along a refresh chain
+	// (under a deterministic signature scheme only the jti tells two such tokens apart)
+	{
+		seen := map[string]string{tok: "password grant", tok2: "client_credentials #1"}
+		note := func(t, what string) {
+			if t == "" {
+				return
+			}
+			res.Evals++
+			if prev, dup := seen[t]; dup {
+				res.violate(Violation{Property: "C06", Fingerprint: "C06/jwt-mint-repeated/key=" + c.JWTKey, What: fmt.Sprintf("two JWT access tokens minted within one second are identical (%s and %s)", prev, what), Engine: "c06", Case: c, Expected: "distinct tokens", Observed: t})
+			}
+			seen[t] = what
+		}
+		rt := o.Str("refresh_token")
+		for i := 1; i <= 3 && rt != ""; i++ {
+			ro := w.Token(url.Values{"grant_type": {"refresh_token"}, "refresh_token": {rt}}, w.AuthFor("A"))
+			note(ro.Str("access_token"), fmt.Sprintf("refresh #%d", i))
+			rt = ro.Str("refresh_token")
+		}
+		for i := 2; i <= 3; i++ {
+			note(w.Token(url.Values{"grant_type": {"client_credentials"}, "scope": {"a"}}, w.AuthFor("B")).Str("access_token"), fmt.Sprintf("client_credentials #%d", i))
+		}
+	}
 	parts := strings.Split(tok, ".")
 	hdr, claims, _ := decodeJWT(tok)
 	pubDER, _ := x509.MarshalPKIXPublicKey(w.IDKey.Public())
